@@ -14,7 +14,7 @@ C10_LEVEL = ("proof, partial: proof at lock-segment granularity (mutual exclusio
 PROPS = {
     "C01": {
         "lean": ["Stackage.Props.C01"],
-        "streams": [{"name": "hist", "quick": 3000, "thorough": 60000}],
+        "streams": [{"name": "genfuncs", "quick": 600, "thorough": 12000}, {"name": "hist", "quick": 3000, "thorough": 60000}],
         "rule": "random histories of the 8 content mutators (+ FIFO / index-option switches) with boundary-biased indices on stacks of "
                 "every kind, LIFO/FIFO, capacity none or 1..6; full observation (Len, Index over [-Len-1, Len+1], Front, Back, IsEmpty, return "
                 "values) after every step; distinct = distinct case text; non-trivial = at least 3 operations of at least 2 different kinds",
@@ -137,7 +137,7 @@ PROPS = {
     },
     "C05": {
         "lean": ["Stackage.Props.C05"],
-        "streams": [{"name": "eqpair", "quick": 3000, "thorough": 60000}, {"name": "equnit", "quick": 1500, "thorough": 30000},
+        "streams": [{"name": "genfuncs", "quick": 600, "thorough": 12000}, {"name": "eqpair", "quick": 3000, "thorough": 60000}, {"name": "equnit", "quick": 1500, "thorough": 30000},
                     {"name": "eqseqs", "quick": 800, "thorough": 16000}],
         "rule": "eqpair: random trees (every kind, capacity, case-folding, nested stacks / conditions in native, alias, alias-with-String and pointer form, "
                 "operators incl. none and user-defined) whose leaves are drawn type-directed from ~70 Go types ([]int, [3]int, []string, []*int incl. nil "
@@ -206,7 +206,7 @@ PROPS = {
     },
     "C19": {
         "lean": ["Stackage.Props.C19"],
-        "streams": [{"name": "nilpat", "quick": 3000, "thorough": 200000}],
+        "streams": [{"name": "genfuncs", "quick": 600, "thorough": 12000}, {"name": "nilpat", "quick": 3000, "thorough": 200000}],
         "rule": "stacks built from nil/non-nil patterns (values 1,2,3,.. in order so that order and identity are observable): every pattern of "
                 "length 0..5 (quick) / 0..12 (thorough) x max in {default,1,2,3,50} x the four negative/forward index option settings, then random "
                 "patterns of length 13..24 (quick) / ..40 (thorough) aimed at the boundaries (N = 2t+5, first gap around the limit, runs around the "
@@ -396,6 +396,8 @@ def _c13_cond(out):
 
 
 def projection(pid, stream):
+    if stream == "genfuncs":   # translator self-check: the value itself
+        return lambda s: s
     if pid == "C13" and stream == "condhist":
         return _c13_cond
     if pid == "C14" and stream == "closures":
@@ -537,6 +539,9 @@ def _c19_distribution(cases):
         inc("nesting", "cond+stack" if " C " in lit and lit.count(" K ") > lit.count(" C ") else "cond" if " C " in lit else "stack" if " K " in lit[2:] else "flat")
         nn = top.count("N")
         inc("nil_share", "none" if nn == 0 else "<1/3" if 3 * nn < n else "<2/3" if 3 * nn < 2 * n else ">=2/3")
+    return d
+
+
 def _c20_distribution(cases):
     d = {"nodes": {}, "depth": {}, "features": {}}
     def bump(k, key):
@@ -570,6 +575,15 @@ def _c20_distribution(cases):
 
 
 def distribution(pid, cases):
+    nf = sum(1 for c in cases if c.startswith("genfuncs "))
+    cases = [c for c in cases if not c.startswith("genfuncs ")]   # translator self-check cases are counted apart
+    d = _distribution(pid, cases)
+    if nf:
+        d["translator_selfcheck_cases"] = nf
+    return d
+
+
+def _distribution(pid, cases):
     if pid == "C19":
         return _c19_distribution(cases)
     if pid == "C20":
